@@ -115,6 +115,8 @@ def run(chk):
             ev = list(direct_events(m))
             for c, t in eff.this_calls(m):
                 tk = (t.key, t.sig)
+                if tk == (m.key, m.sig):
+                    continue        # direct recursion: the callee's obligations are this method's own
                 if t.cls == cls and not clean.get(tk) and (has_direct.get(tk) or touches.get(tk)):
                     ev.append((c, "values/points (via %s)" % short(t.name)))
             return ev
@@ -256,6 +258,40 @@ def run(chk):
                                  "is the inverse of the upward relations (getParent, getStepParent) (obligations of C09-D4)")
     nr6 = c09.hierarchy_relations(chk, db, "C01-D6.relations")
     chk.floor("C01-D6.relations", nr6, 4, "local polynomial rules with closed-form hierarchy relations")
+
+    # ------------------------------------------------------------------ D8 proposed tensor sets contain the current one
+    chk.rule("C01-D8.tensors", "a proposed tensor set (updated_tensors) always contains the tensors of the loaded points: before proposeUpdatedTensors() the proposal, or the local set that is "
+                               "moved into it, is merged (+=) with the member tensors (or, for sequence rules, points); otherwise loaded points whose tensors are not selected again lose their coefficients")
+    nprop = 0
+    for f in allf:
+        if f.cls not in ("TasGrid::GridGlobal", "TasGrid::GridFourier"):
+            continue
+        props = [c for c in f.calls(into_lambda=False) if (callee(c) or "").endswith("::proposeUpdatedTensors") and is_reachable(f, c)]
+        if not props:
+            continue
+        # locals that are moved / assigned into updated_tensors
+        srcs = set()
+        for q in f.walk():
+            if q.get("k") == "CXXOperatorCallExpr" and q.get("op") == "=":
+                ch = [x for x in q.get("c", []) if isinstance(x, dict)]
+                if member_txt(ch[-2]) == "updated_tensors":
+                    for x in walk(ch[-1]):
+                        if x.get("k") == "DeclRefExpr" and "did" in x:
+                            srcs.add(x["did"])
+
+        def is_merge(x):
+            if x.get("k") != "CXXOperatorCallExpr" or x.get("op") != "+=":
+                return False
+            ch = [y for y in x.get("c", []) if isinstance(y, dict)]
+            tgt_ok = member_txt(ch[-2]) == "updated_tensors" or var_of(ch[-2]) in srcs
+            return tgt_ok and member_txt(ch[-1]) in ("tensors", "points")
+        for c in props:
+            nprop += 1
+            chk.saw(f)
+            ok = bool(must_pass_before(f, c, is_merge))
+            chk.ob("C01-D8.tensors", f.key + f.sig, "proposeUpdatedTensors @%d follows a merge with the current tensors" % c.get("l", 0), ok, f.loc(c),
+                   "" if ok else "the proposal is not merged with `tensors`: after loadNeededValues the tensor set is replaced by the new selection alone and old points outside it evaluate without their coefficients")
+    chk.floor("C01-D8.tensors", nprop, 3, "calls of proposeUpdatedTensors")
 
     from rules import dispatch
     chk.rule("C01-D7.dispatch", "every switch(effective_rule) in the local polynomial grid instantiates, in each case, the templates for the rule of that case")
